@@ -141,14 +141,17 @@ def observe_impl(m):
         if p.ground[1]:
             gnd = 1
         pulses.append([p.geo[0].n, p.geo[1].n, int(p.dir_sgn[0]), int(p.dir_sgn[1]), gnd, p.geobj.n])
-    return dict(objs=objs, pulses=pulses, min_seglen=float(m.min_seglen))
+    # the shortest segment of the structure, from the segment table itself (the joining rule of C12 refers to it);
+    # what the implementation *takes* as the shortest segment is kept separately (upstream datum of the model tie)
+    true_min = min(math.dist([float(x) for x in sg.p1], [float(x) for x in sg.p2]) for g in m.geo for sg in g.segments)
+    return dict(objs=objs, pulses=pulses, min_seglen=true_min, min_seglen_impl=float(m.min_seglen))
 
 
 def model_request(spec, obs, m, queries=()):
     """request line for the driver: objects in *creation* order with the tags the user gave,
     end points as the implementation holds them after ground snapping (upstream data)"""
     # map creation order -> implementation object (by identity of the Wire list order)
-    toks = ['topo full', '1' if spec['ground'] else '0', f2b(obs['min_seglen']), len(spec['wires'])]
+    toks = ['topo full', '1' if spec['ground'] else '0', f2b(obs.get('min_seglen_impl', obs['min_seglen'])), len(spec['wires'])]
     created = getattr(m.geo, 'geo')
     # m.geo.geo is sorted by tag; recover creation order through the original tag/had_tag info
     by_tag = {w.tag: w for w in created}
